@@ -14,6 +14,9 @@ convention (contexts, views, closures, memos and owners are numbered in creation
   finds in an owner is fixed when the owner is created: the context provided there, else what its parent owner
   sees (`visible`); no later operation changes it.
 
+* ticks (`Op.tick`: the executor runs the pending effects) are **invisible**: a tick is accepted, observes nothing and
+  no function of the history looks at it ("the last locale set" does not depend on when the event loop turns).
+
 An operation naming a view / closure / memo / owner that does not exist is rejected (`Obs.bad`) and leaves no
 trace in the history.
 -/
@@ -58,6 +61,7 @@ def visible : Hist → Nat → Option Nat
   | .makeMemo _ :: h, o => visible h o
   | .readMemo _ :: h, o => visible h o
   | .useCtx _ :: h, o => visible h o
+  | .tick :: h, o => visible h o
 
 /-- which context each view is a view of -/
 def views : Hist → List Nat
@@ -114,6 +118,7 @@ def current : Hist → Nat → Option Locale
   | .readMemo _ :: h, c => current h c
   | .childOwner _ :: h, c => current h c
   | .useCtx _ :: h, c => current h c
+  | .tick :: h, c => current h c
 
 /-- the locale a view shows: that of its context -/
 def viewLocale (h : Hist) (v : Nat) : Option Locale :=
@@ -146,6 +151,7 @@ def memoStale : Hist → Nat → Bool
   | .childOwner _ :: h, i => memoStale h i
   | .provider _ _ _ :: h, i => memoStale h i
   | .useCtx _ :: h, i => memoStale h i
+  | .tick :: h, i => memoStale h i
 
 /-- the value memo `i` computed at its last evaluation -/
 def memoCache : Hist → Nat → Option Locale
@@ -167,6 +173,7 @@ def memoCache : Hist → Nat → Option Locale
   | .childOwner _ :: h, i => memoCache h i
   | .provider _ _ _ :: h, i => memoCache h i
   | .useCtx _ :: h, i => memoCache h i
+  | .tick :: h, i => memoCache h i
 
 /-- what reading memo `i` returns now -/
 def memoRead (h : Hist) (i : Nat) : Option Locale :=
@@ -200,6 +207,7 @@ def obsAt (h : Hist) : Op → Obs
       | some c => .found (views h).length c
       | none => .notFound
     else .bad
+  | .tick => .none
 
 /-- expected observations of a whole sequence, starting after history `h` -/
 def observe (h : Hist) : List Op → List Obs
